@@ -233,7 +233,7 @@ func romodHandler(w *workerCtx, line []byte) (any, error) {
 	a.Close()
 	select {
 	case <-done:
-	case <-time.After(10 * time.Second):
+	case <-idleAfter(10 * time.Second):
 		obs.ErrText += " [daemon side did not return]"
 	}
 	after := snapTree(base)
